@@ -29,6 +29,27 @@ pub fn j_series(s: &Series, leap: &LeapTable, out: &mut Local) {
     let end = sie + s.span;
     let n_items: i128 = if s.incl { s.span / s.step + 1 } else { (s.span + s.step - 1) / s.step };
     let n_items = if s.span < 0 { 0 } else { n_items };
+    // Mixed scales: "k x step < end - start" measures the span in the END's scale (C04: the left operand's), while the
+    // items advance in the START's scale and "nothing is yielded past the end" compares instants. Across a leap second the
+    // two readings give different counts and the statement cannot be met both ways: either count is accepted there.
+    let n_alt: i128 = if s.end_ts == s.ts {
+        n_items
+    } else {
+        match scales::to_tai(end, s.end_ts, leap).and_then(|t| scales::from_tai(t, s.ts, leap)) {
+            Some(end_in_start) => {
+                let sp = end_in_start - s.start;
+                if sp < 0 {
+                    0
+                } else if s.incl {
+                    sp / s.step + 1
+                } else {
+                    (sp + s.step - 1) / s.step
+                }
+            }
+            None => n_items,
+        }
+    };
+    let n_max = n_items.max(n_alt);
     let start = Epoch::from_duration(mk(s.start), s.ts);
     let end_e = Epoch::from_duration(mk(end), s.end_ts);
     let step = mk(s.step);
@@ -60,7 +81,7 @@ pub fn j_series(s: &Series, leap: &LeapTable, out: &mut Local) {
                     if e.time_scale != s.ts {
                         return Err((k, "item-in-wrong-scale", format!("{}", scale_name(s.ts)), format!("{}", scale_name(e.time_scale))));
                     }
-                    if k >= n_items {
+                    if k >= n_max {
                         return Err((k, "yields-past-the-end", format!("{n_items} items"), format!("item #{k} = {c}")));
                     }
                     if c != s.start + k * s.step {
@@ -73,9 +94,10 @@ pub fn j_series(s: &Series, leap: &LeapTable, out: &mut Local) {
                 None => break,
             }
         }
-        if k != n_items {
+        if k != n_items && k != n_alt {
             return Err((k, "stops-early", format!("{n_items} items"), format!("{k} items")));
         }
+        let n_items = k; // the other ways of driving the iterator must agree with next()
         // terminated: stays terminated
         if it.next().is_some() {
             return Err((k, "resumes-after-none", "None".into(), "Some".into()));
@@ -184,6 +206,18 @@ pub fn space(q: bool) -> Vec<Series> {
 pub fn long_span_series() -> Vec<Series> {
     let mut v = vec![];
     let day = 86_400 * NS;
+    // spans equal to, and just below, the largest duration (end - start itself does not saturate)
+    for (ts, start) in [(TimeScale::TAI, 0i128), (TimeScale::GPST, -5 * NPC - 17), (TimeScale::UTC, DMIN + 3)] {
+        for span in [DMAX, DMAX - 1, DMAX - 10_000 * NPC] {
+            for step in [10_000 * NPC, 9_999 * NPC + 1, 32_768 * NPC, 32_767 * NPC + 5, 16_384 * NPC] {
+                for incl in [false, true] {
+                    if start + span <= DMAX {
+                        v.push(Series { ts, start, end_ts: ts, span, step, incl });
+                    }
+                }
+            }
+        }
+    }
     for ts in [TimeScale::TAI, TimeScale::UTC, TimeScale::GPST, TimeScale::TDB] {
         for start in [-3 * NPC + 5, -NPC - 1, 0, 12_345_678_901_234_567] {
             for step in [3652 * day, NPC - 1, NPC, 36_525 * day / 4 + 1, 400 * day + 7] {
